@@ -124,6 +124,12 @@ func shapeKey(c Config) string {
 	if c.ConnLoss != "" {
 		k += " server-conn-lost=" + c.ConnLoss
 	}
+	if c.QGroup {
+		k += " queue-group"
+		if c.DupSubj {
+			k += "+duplicated-subject"
+		}
+	}
 	return k
 }
 
@@ -150,6 +156,7 @@ func workerStopConfig(rng *rand.Rand, w, q int, from, dur string, share bool, re
 	c.NSubj = 1 + rng.Intn(3) // one subscription with traffic: the position of S in the callback order is its position in the stream
 	c.Busy = 1
 	c.PureRecv = false // S is identified in the request-received handler
+	c.DupSubj = false  // ... of the one subscription that carries the traffic
 	c.StopFrom = from
 	c.K = pickK(rng, c)
 	c.K1 = rng.Intn(c.K + 1)
@@ -194,6 +201,8 @@ func fill(rng *rand.Rand, c Config) Config {
 	c.HWM = []string{"", "", "1ms", "10ms", "50ms"}[rng.Intn(5)]
 	c.PureRecv = rng.Intn(4) == 0
 	c.Bad = []int{0, 0, 0, c.W, c.W + 1, 2 * c.W}[rng.Intn(6)] // failing requests interleaved (>= worker count)
+	c.QGroup = rng.Intn(2) == 0
+	c.DupSubj = c.QGroup && rng.Intn(3) == 0 // the subject list names a subject twice (one queue group)
 	c.Oneway = rng.Intn(3) == 0
 	c.Arrival = []string{"burst", "burst", "chunks", "trickle"}[rng.Intn(4)]
 	if c.B > 200 && c.Arrival == "trickle" {
@@ -312,6 +321,14 @@ func buildSweep(run *ev.Run) []Config {
 		// 8 configs: queue wait beyond a small high watermark
 		for i := 0; i < 8; i++ {
 			add(watermarkConfig(rng, []int{1, 2}[i%2], []int{2, 8, 8, 64}[i%4], []string{"1ms", "10ms", "50ms", "1ms"}[i%4], []string{"5ms", "5ms", "20ms", "1ms"}[i%4], i >= 6, 0))
+		}
+		// 16 configs: every w x q once with a queue group and a duplicated subject
+		n = 0
+		for _, w := range sweepW {
+			for _, q := range sweepQ {
+				add(dupSubjConfig(rng, w, q, bClasses[n%len(bClasses)], sweepDur[n%len(sweepDur)], 0))
+				n++
+			}
 		}
 		// 16 configs: every w x q once with >= w failing requests in the stream
 		n = 0
@@ -442,6 +459,16 @@ func buildSweep(run *ev.Run) []Config {
 			}
 		}
 	}
+	// queue group with a duplicated subject
+	for _, w := range sweepW {
+		for _, q := range sweepQ {
+			for _, bc := range bClasses {
+				for _, d := range sweepDur {
+					add(dupSubjConfig(rng, w, q, bc, d, 0))
+				}
+			}
+		}
+	}
 	// >= w failing requests in the stream
 	for _, w := range sweepW {
 		for _, q := range sweepQ {
@@ -490,6 +517,17 @@ func watermarkConfig(rng *rand.Rand, w, q int, hwm, dur string, pure bool, rep i
 	c := fill(rng, Config{W: w, Q: q, BClass: "2(q+w)", Dur: dur, Share: rng.Intn(2) == 0, Rep: rep})
 	c.K = c.B
 	c.HWM, c.PureRecv = hwm, pure
+	return c
+}
+
+// dupSubjConfig: a queue group and a subject list that names the first subject
+// twice; requests before Stop, racing it, after it, and late ones after Serve
+// returned (the late phase is part of every scenario).
+func dupSubjConfig(rng *rand.Rand, w, q int, bclass, dur string, rep int) Config {
+	c := fill(rng, Config{W: w, Q: q, BClass: bclass, Dur: dur, Share: rng.Intn(2) == 0, Rep: rep})
+	c.K = pickK(rng, c)
+	c.QGroup, c.DupSubj = true, true
+	c.DrainTO = ""
 	return c
 }
 
@@ -550,7 +588,7 @@ func soleWorkerProbe(rng *rand.Rand, idx int) []Config {
 	var out []Config
 	for i, from := range stopFromModes {
 		c := fill(rng, Config{W: 1, Q: 1 + i, BClass: "2(q+w)", Dur: "1ms"})
-		c.NSubj, c.Busy, c.PureRecv, c.StopFrom, c.Rest, c.DrainTO = 1, 1, false, from, "after", ""
+		c.NSubj, c.Busy, c.PureRecv, c.DupSubj, c.StopFrom, c.Rest, c.DrainTO = 1, 1, false, false, from, "after", ""
 		c.K, c.K1 = c.B, 0
 		c.SoleProbe = true
 		c.Idx = idx + i
@@ -738,7 +776,7 @@ var panicNorm = regexp.MustCompile(`0x[0-9a-fA-F]+|\d+`)
 
 func runC20(tier string, args []string) int {
 	run := ev.New("C20", tier, "exploration")
-	run.Rule("configuration sweep workers {1,2,4,8} x queue {1,2,8,64} x burst {1,q,q+w,q+w+1,2(q+w),10(q+w)} x handler {0,1ms,5ms,PRNG 0-3ms,gate released after Stop is called} x position of Stop (incl. position 0 issued right after `go Serve()` without waiting for the subscription, with no / Gosched / 1-200us yields so that Stop is called both before and after Serve is parked; otherwise k of b double-flushed into the server's NATS client first; the rest published concurrently with Stop and/or after it returned; one extra request after Stop returned in every scenario) x caller of Stop (harness goroutine, or a worker goroutine: the processor / started / finished event handler of a shutdown request placed inside the double-flushed stream, wherever the drain can finish without that worker) x subjects 1-4 with traffic on a subset (idle subscriptions next to busy ones, incl. full queue with exactly as many requests parked in the NATS client as there are idle subjects) x WithHighWatermark {default, 1ms, 10ms, 50ms} incl. queue waits beyond it, the library's default request-received handler always in effect (wrapped by the counter, or left to the builder) x failing requests (>= worker count: message shorter than the frame size, bad header version, truncated header, processor error) interleaved in front of well-formed ones x fault 'server connection lost right before Stop' (NoReconnect; TCP cut through a relay / private broker shut down; k <= q+w requests in the work queue; replies not judged, processing before Serve returns is) x server connection option DrainTimeout {default, bare Options literal = 0, 1ms, 50ms} incl. backlogs that outlast it x server connection shared with an unrelated subscription or not x 1-2 subjects x arrival pattern; every scenario runs a real FNatsServer against an embedded nats-server in a child process; distinct = (w, q, burst class, handler mode, stop-position class, rest mode, sharing, subjects)")
+	run.Rule("configuration sweep workers {1,2,4,8} x queue {1,2,8,64} x burst {1,q,q+w,q+w+1,2(q+w),10(q+w)} x handler {0,1ms,5ms,PRNG 0-3ms,gate released after Stop is called} x position of Stop (incl. position 0 issued right after `go Serve()` without waiting for the subscription, with no / Gosched / 1-200us yields so that Stop is called both before and after Serve is parked; otherwise k of b double-flushed into the server's NATS client first; the rest published concurrently with Stop and/or after it returned; one extra request after Stop returned in every scenario) x caller of Stop (harness goroutine, or a worker goroutine: the processor / started / finished event handler of a shutdown request placed inside the double-flushed stream, wherever the drain can finish without that worker) x subjects 1-4 with traffic on a subset (idle subscriptions next to busy ones, incl. full queue with exactly as many requests parked in the NATS client as there are idle subjects) x WithHighWatermark {default, 1ms, 10ms, 50ms} incl. queue waits beyond it, the library's default request-received handler always in effect (wrapped by the counter, or left to the builder) x queue group or none, subject list naming a subject twice (with a queue group) x late requests after Stop AND Serve returned in every scenario (the stopped server takes nothing off NATS: no request-received event, no processing, and a probe member of the queue group subscribed after Serve returned sees every late request) x failing requests (>= worker count: message shorter than the frame size, bad header version, truncated header, processor error) interleaved in front of well-formed ones x fault 'server connection lost right before Stop' (NoReconnect; TCP cut through a relay / private broker shut down; k <= q+w requests in the work queue; replies not judged, processing before Serve returns is) x server connection option DrainTimeout {default, bare Options literal = 0, 1ms, 50ms} incl. backlogs that outlast it x server connection shared with an unrelated subscription or not x 1-2 subjects x arrival pattern; every scenario runs a real FNatsServer against an embedded nats-server in a child process; distinct = (w, q, burst class, handler mode, stop-position class, rest mode, sharing, subjects)")
 	run.Assume("embedded nats-server v2 routes a PUB to the subscribers' outbound queues before it answers the publisher's PING, and a connection's PONG follows the MSGs queued before it (the double flush defines 'received before Stop', as the pinned TestShutdown does on one connection)")
 	run.Assume("nats.go SubscribeSync/Pending/NextMsg on the collector connection and Flush are correct (reply collector)")
 	run.Assume("the recording processor is the only FProcessor; handler durations are finite (the gate is opened after Stop is called, never after it returns)")
@@ -973,6 +1011,16 @@ func runC20(tier string, args []string) int {
 		}
 		if r.Config.PureRecv {
 			run.Add("scenarios_builder_default_received_handler", 1)
+		}
+		if r.Late > 0 {
+			run.Add("late_requests_after_stop_and_serve_returned", r.Late)
+			run.Add("late_requests_seen_by_queue_group_probe", r.LateAtProbe)
+		}
+		if r.Config.QGroup {
+			run.Add("scenarios_with_queue_group", 1)
+			if r.Config.DupSubj {
+				run.Add("scenarios_with_duplicated_subject", 1)
+			}
 		}
 		if r.BadPublished > 0 {
 			run.Add("scenarios_with_failing_requests_in_the_stream", 1)
